@@ -166,7 +166,14 @@ def is_dtype(dtype: npt.DTypeLike, supported_dtypes: tuple[npt.DTypeLike, ...]) 
     if isinstance(dtype, np.dtype) and dtype.fields:
         return dtype in supported_dtypes
 
-    return _np_isdtype(dtype, supported_dtypes)
+    # np.isdtype() compares scalar types, so a structured dtype in supported_dtypes would match
+    # every unstructured void dtype (e.g. "V4"). Structured dtypes only match by equality (above).
+    unstructured_dtypes = tuple(
+        supported_dtype
+        for supported_dtype in supported_dtypes
+        if not (isinstance(supported_dtype, np.dtype) and supported_dtype.fields)
+    )
+    return bool(unstructured_dtypes) and _np_isdtype(dtype, unstructured_dtypes)
 
 
 def validate_dtype(dtype: npt.DTypeLike, supported_dtypes: tuple[npt.DTypeLike, ...]) -> None:
